@@ -188,12 +188,15 @@ type msg struct {
 
 type actor struct {
 	Act
-	gid      int64
-	dead     atomic.Bool
-	k        int // calls granted so far in this segment
-	pending  *request
-	started  bool
-	finished bool
+	gid       int64
+	dead      atomic.Bool
+	k         int // calls granted so far in this segment
+	pending   *request
+	started   bool
+	finished  bool
+	lockG     int // group whose mutex acquisition was granted and is not yet known to have succeeded
+	blockedOn int // group on whose real sync.Mutex the goroutine is blocked (observed in the goroutine dump)
+	stuck     bool
 }
 
 type instance struct {
@@ -212,8 +215,10 @@ type World struct {
 	binds         []bindRec
 	nidx          int
 	msgs          chan msg
-	actors        sync.Map // goroutine id -> *actor
-	mutex         map[int]int
+	actors        sync.Map     // goroutine id -> *actor
+	live          []*actor     // actors of the running segment
+	wakeDue       map[int]bool // groups whose mutex was released while an actor was blocked on it
+	wokeEarly     map[int]bool // a waiter of the group showed up before the release that woke it was reported
 	tw            *tracefmt.Writer
 	useK8sPlugins bool
 	desync        int
@@ -525,7 +530,8 @@ func (w *World) newInstance() {
 		rec:    controllers.NewBindRequestReconciler(w.gated, w.scheme, nopRecorder{}, params, b, rrs),
 		podRec: &controllers.PodReconciler{Client: w.gated, Scheme: w.scheme, ResourceReservation: rrs, SchedulerName: schedName},
 	}
-	w.mutex = map[int]int{}
+	w.wakeDue = map[int]bool{}
+	w.wokeEarly = map[int]bool{}
 }
 
 func nodeNameIndexer(o client.Object) []string {
@@ -779,35 +785,142 @@ func (w *World) recv() msg {
 	panic("unreachable")
 }
 
-// await runs actor a (the only runnable actor) until its next gate or its end.
-func (w *World) await(a *actor) {
-	for a.pending == nil && !a.finished {
-		m := w.recv()
-		if m.a != a {
-			if m.a.dead.Load() {
-				continue
+// acquired: an actor whose lock acquisition was granted shows up again: it holds the mutex now.
+func (w *World) acquired(a *actor) {
+	if a.lockG != 0 {
+		g := a.lockG
+		if a.blockedOn != 0 {
+			// a woken waiter; its message may overtake the releaser's "released" notification (sent after Unlock)
+			if w.wakeDue[g] {
+				delete(w.wakeDue, g)
+			} else {
+				w.wokeEarly[g] = true
 			}
-			fatal("message from actor %d while waiting for actor %d", m.a.A, a.A)
 		}
-		switch m.typ {
-		case mReq:
-			a.pending = m.req
-		case mReleased:
-			if w.mutex[m.g] == a.A {
-				delete(w.mutex, m.g)
+		a.lockG, a.blockedOn = 0, 0
+		w.emit("Lock", map[string]any{"a": a.A, "g": g})
+	}
+}
+
+// handle processes one message of any live actor.
+func (w *World) handle(m msg) {
+	a := m.a
+	if a.dead.Load() {
+		return
+	}
+	switch m.typ {
+	case mReq:
+		w.acquired(a)
+		a.pending = m.req
+	case mReleased:
+		w.acquired(a)
+		if w.wokeEarly[m.g] {
+			delete(w.wokeEarly, m.g) // the waiter this release woke has already shown up
+			break
+		}
+		for _, b := range w.live {
+			if b != a && b.blockedOn == m.g && !b.stuck {
+				w.wakeDue[m.g] = true
 			}
-		case mFinished:
-			a.finished = true
-			e, r := 0, 0
-			if m.endErr {
-				e = 1
+		}
+	case mFinished:
+		w.acquired(a)
+		a.finished = true
+		e, r := 0, 0
+		if m.endErr {
+			e = 1
+		}
+		if m.requeue {
+			r = 1
+		}
+		w.emit("End", map[string]any{"a": a.A, "err": e, "requeue": r})
+	default:
+		fatal("unexpected message %d from actor %d", m.typ, a.A)
+	}
+}
+
+// blockedInLock reports whether the goroutine sits in sync.(*Mutex).Lock called from LockMutexForGroup
+// (goroutine dump: a stable condition - it stays blocked until another actor releases the mutex).
+func blockedInLock(gid int64) bool {
+	buf := make([]byte, 1<<18)
+	n := runtime.Stack(buf, true)
+	head := fmt.Sprintf("goroutine %d [", gid)
+	for _, blk := range strings.Split(string(buf[:n]), "\n\n") {
+		if !strings.HasPrefix(blk, head) {
+			continue
+		}
+		first := blk
+		if i := strings.IndexByte(blk, '\n'); i >= 0 {
+			first = blk[:i]
+		}
+		return (strings.Contains(first, "sync.Mutex.Lock") || strings.Contains(first, "semacquire")) &&
+			strings.Contains(blk, "LockMutexForGroup") && !strings.Contains(blk, "acquireWithRefcount")
+	}
+	return false
+}
+
+const (
+	pollEvery  = 200 * time.Microsecond
+	wakeSettle = 5 * time.Second // a released mutex wakes its waiter within microseconds; after this it counts as stuck
+)
+
+// settle runs actor a (and the waiters woken by the mutexes it releases) until a waits at its next gate, has
+// ended, or is really blocked in the group mutex, and every woken waiter has reached its gate. No other actor
+// runs meanwhile: all others are parked at gates, blocked in a mutex, or ended.
+func (w *World) settle(a *actor) {
+	deadline := time.Now().Add(detectSecs * time.Second)
+	for a.pending == nil && !a.finished && a.blockedOn == 0 {
+		select {
+		case m := <-w.msgs:
+			w.handle(m)
+		case <-time.After(pollEvery):
+			if a.lockG != 0 && blockedInLock(a.gid) {
+				a.blockedOn = a.lockG
+				w.emit("Wait", map[string]any{"a": a.A, "g": a.lockG})
+			} else if time.Now().After(deadline) {
+				buf := make([]byte, 1<<16)
+				n := runtime.Stack(buf, true)
+				fatal("no progress for %d s: actor %d neither reached a gate nor finished nor blocks in the group mutex\n%s", detectSecs, a.A, buf[:n])
 			}
-			if m.requeue {
-				r = 1
+		}
+	}
+	for g := range w.wakeDue {
+		var waiters []*actor
+		for _, b := range w.live {
+			if b.blockedOn == g && !b.stuck {
+				waiters = append(waiters, b)
 			}
-			w.emit("End", map[string]any{"a": a.A, "err": e, "requeue": r})
-		default:
-			fatal("unexpected message %d from actor %d", m.typ, a.A)
+		}
+		if len(waiters) == 0 {
+			delete(w.wakeDue, g)
+			continue
+		}
+		woke := func() bool {
+			for _, b := range waiters {
+				if b.blockedOn == 0 {
+					return true
+				}
+			}
+			return false
+		}
+		until := time.Now().Add(wakeSettle)
+		for !woke() && time.Now().Before(until) {
+			select {
+			case m := <-w.msgs:
+				w.handle(m)
+			case <-time.After(pollEvery):
+			}
+		}
+		delete(w.wakeDue, g) // (a waiter that showed up has already cleared it)
+		if !woke() {
+			if os.Getenv("VERIF_BINDER_DEBUG") != "" {
+				buf := make([]byte, 1<<18)
+				n := runtime.Stack(buf, true)
+				fmt.Fprintf(os.Stderr, "wake of group %d timed out; waiters %v\n%s\n", g, len(waiters), buf[:n])
+			}
+			for _, b := range waiters {
+				b.stuck = true // blocked on a mutex nobody will ever unlock (lost mutex)
+			}
 		}
 	}
 }
@@ -892,7 +1005,7 @@ func (w *World) start(a *actor) {
 		w.msgs <- msg{typ: mFinished, a: a, endErr: e, requeue: r}
 	}()
 	<-ready
-	w.await(a)
+	w.settle(a)
 }
 
 // skip: an event of the schedule that is not applicable in the real store is dropped (counted)
@@ -901,26 +1014,18 @@ func (w *World) skip(a *actor) {
 	w.desync++
 }
 
-func (w *World) grantable(a *actor) bool {
-	if a.finished || a.pending == nil {
-		return false
-	}
-	if a.pending.isLock {
-		_, held := w.mutex[a.pending.g]
-		return !held
-	}
-	return true
-}
+func (w *World) grantable(a *actor) bool { return !a.finished && a.pending != nil }
 
 // step grants the pending request of actor a. Returns true when the binder process crashed.
 func (w *World) step(a *actor, faults []Fault, all []*actor) bool {
 	req := a.pending
 	a.pending = nil
 	if req.isLock {
-		w.mutex[req.g] = a.A
-		w.emit("Lock", map[string]any{"a": a.A, "g": req.g})
+		// the actor goes on into the real LockMutexForGroup: it either acquires the mutex (Lock event when it shows
+		// up again) or really blocks in it (Wait event; Lock event when a release has woken it)
+		a.lockG = req.g
 		req.reply <- "ok"
-		w.await(a)
+		w.settle(a)
 		return false
 	}
 	a.k++
@@ -932,8 +1037,12 @@ func (w *World) step(a *actor, faults []Fault, all []*actor) bool {
 	}
 	req.reply <- res
 	m := w.recv()
-	if m.a != a || m.typ != mApplied {
-		fatal("expected applied from actor %d, got %d from %d", a.A, m.typ, m.a.A)
+	for m.a != a || m.typ != mApplied {
+		if m.a == a {
+			fatal("expected applied from actor %d, got %d", a.A, m.typ)
+		}
+		w.handle(m) // a late waker
+		m = w.recv()
 	}
 	ne := 0
 	if m.natErr {
@@ -955,7 +1064,7 @@ func (w *World) step(a *actor, faults []Fault, all []*actor) bool {
 		}
 		return true
 	}
-	w.await(a)
+	w.settle(a)
 	return false
 }
 
@@ -970,6 +1079,7 @@ func (w *World) runSegment(st Step) {
 		byID[ac.I] = a
 		all = append(all, a)
 	}
+	w.live = all
 	crashed := false
 	doOne := func(a *actor) {
 		if !a.started {
@@ -1035,12 +1145,19 @@ func (w *World) runSegment(st Step) {
 		}
 		if next == nil {
 			if busy {
-				fatal("deadlock: every unfinished actor waits for a held group mutex")
+				// every unfinished actor is blocked in a group mutex nobody will release: the process is wedged;
+				// it is abandoned like a crashed one (the trace says so)
+				for _, b := range all {
+					b.dead.Store(true)
+				}
+				w.newInstance()
+				w.emit("Env", map[string]any{"e": "Stuck", "p": 0, "g": 0})
 			}
 			break
 		}
 		doOne(next)
 	}
+	w.live = nil
 	if crashed {
 		w.newInstance()
 		w.emit("Env", map[string]any{"e": "Restart", "p": 0, "g": 0})
